@@ -185,7 +185,7 @@ pub fn check(tier: Tier, threads: usize) -> CheckOutcome {
                     "frame {} ({} body bytes) fed whole: decoder handled {} request(s), error={}, {} byte(s) left in the buffer - it must consume exactly 24+{} bytes and yield a request, or fail",
                     f.name, body, o.handled, o.err, residue, body
                 ),
-                json!({"engine": "c09", "part": "frame-exact", "frame": f.name, "bytes": wire::hex(&b)}),
+                json!({"engine": "c09", "part": "frame-exact", "frame": f.name, "bytes": wire::hex_full(&b)}),
             );
         }
     }
@@ -240,7 +240,7 @@ pub fn check(tier: Tier, threads: usize) -> CheckOutcome {
                     o.err,
                     describe_resp(&o.out)
                 ),
-                json!({"engine": "c09", "part": "decoder-segmentation", "stream": job.name, "bytes": wire::hex(&job.bytes), "cuts": cuts}),
+                json!({"engine": "c09", "part": "decoder-segmentation", "stream": job.name, "bytes": wire::hex_full(&job.bytes), "cuts": cuts}),
             );
         }
     }
@@ -316,7 +316,7 @@ pub fn check(tier: Tier, threads: usize) -> CheckOutcome {
                             describe_resp(&o.received),
                             o.eof
                         ),
-                        json!({"engine": "c09", "part": "socket-segmentation", "stream": job.name, "bytes": wire::hex(&job.bytes), "cuts": cuts}),
+                        json!({"engine": "c09", "part": "socket-segmentation", "stream": job.name, "bytes": wire::hex_full(&job.bytes), "cuts": cuts}),
                     );
                 }
                 // agreement with the frame-wise expectation (each request taken from its own bytes)
@@ -337,7 +337,7 @@ pub fn check(tier: Tier, threads: usize) -> CheckOutcome {
                             describe_resp(&base.received),
                             describe_resp(&exp_out)
                         ),
-                        json!({"engine": "c09", "part": "frame-boundary", "stream": job.name, "bytes": wire::hex(&job.bytes)}),
+                        json!({"engine": "c09", "part": "frame-boundary", "stream": job.name, "bytes": wire::hex_full(&job.bytes)}),
                     );
                 }
             }
@@ -375,5 +375,38 @@ pub fn check(tier: Tier, threads: usize) -> CheckOutcome {
         violations,
         wall_s: t0.elapsed().as_secs_f64(),
         machinery_error: mach,
+    }
+}
+
+pub fn replay(v: &serde_json::Value) -> Result<Option<String>, String> {
+    let bytes = wire::unhex(v["bytes"].as_str().unwrap_or(""));
+    let cuts: Vec<usize> = v["cuts"].as_array().map(|a| a.iter().filter_map(|x| x.as_u64().map(|y| y as usize)).collect()).unwrap_or_default();
+    let part = v["part"].as_str().unwrap_or("");
+    let chunks = corpus::split(&bytes, &cuts);
+    if part == "socket-segmentation" || part == "frame-boundary" {
+        let base = run_socket(&[&bytes])?;
+        let seg = run_socket(&chunks)?;
+        let seg2 = run_socket(&chunks)?;
+        if seg != seg2 {
+            return Err("two replays of the same segmentation differ".into());
+        }
+        if base != seg {
+            return Ok(Some(format!("unsegmented {} eof={} / cut at {:?}: {} eof={}", describe_resp(&base.received), base.eof, cuts, describe_resp(&seg.received), seg.eof)));
+        }
+        Ok(None)
+    } else {
+        let (base, residue) = run_decoder(&[&bytes]);
+        let (seg, _) = run_decoder(&chunks);
+        let (seg2, _) = run_decoder(&chunks);
+        if seg != seg2 {
+            return Err("two replays of the same segmentation differ".into());
+        }
+        if base != seg {
+            return Ok(Some(format!("decoder: unsegmented handled {} err={} / cut at {:?}: handled {} err={}", base.handled, base.err, cuts, seg.handled, seg.err)));
+        }
+        if part == "frame-exact" && residue != 0 {
+            return Ok(Some(format!("{} bytes left in the buffer after the frame", residue)));
+        }
+        Ok(None)
     }
 }
